@@ -267,6 +267,32 @@ def arity_rule(ctx, fb, ap, asp, bpa):
             ok = False
             ctx.report("C08-arity-per-application", "apply_procedure/check-table", "the arity comparison does not implement "
                        "`too few, or too many without a rest parameter`: %s" % why, where_of(ap))
+    # checks delegated to a helper: g(.., procedure, ..)? where g compares the argument count with the formals of
+    # its parameter on every path to a normal return
+    for hb, ht in ap.calls():
+        g = fb.by_path(callee(ht) or "")
+        if g is None or g.name in (asp.name, bpa.name, ap.name) or ap.blocks[hb]["cleanup"]:
+            continue
+        pg = Prov(g, passthrough_extra=("values::Procedure::get_parameters",))
+        gdom = g.dominators()
+        for (cb, gX, table_ok, why) in find_arity_checks(g, pg, args_hint=None):
+            if not all(cb in gdom[rb] for rb in g.return_blocks()):
+                continue
+            # the helper's verdict must be propagated with `?`
+            propagated = any(callee_matches(tt, "std::ops::Try::branch") and ("call", hb, callee(ht)) in p.op_roots(tt["args"][0])
+                             for _, tt in ap.calls())
+            for r in gX:
+                if r[0] != "arg" or r[1] - 1 >= len(ht["args"]) or not propagated:
+                    continue
+                X_roots = {x for x in p.op_roots(ht["args"][r[1] - 1]) if x[0] in ("arg", "call")}
+                checks.append((hb, X_roots, table_ok, why))
+                ctx.inst("C08-arity-per-application", "apply_procedure/check-via-%s@%s" % (
+                    g.name.rsplit("::", 1)[-1], sorted(x[0] + str(x[1]) for x in X_roots)),
+                    {"covers": sorted(str(x) for x in X_roots), "table_ok": table_ok})
+                if not table_ok:
+                    ok = False
+                    ctx.report("C08-arity-per-application", "apply_procedure/check-table", "the arity comparison in %s does not "
+                               "implement `too few, or too many without a rest parameter`: %s" % (g.name, why), where_of(g))
     # callee-side check in apply_scheme_procedure (covers the User arm for every source)
     pas = Prov(asp)
     callee_checks = find_arity_checks(asp, pas, args_hint=5)
@@ -456,7 +482,7 @@ def div_zero_rule(ctx, fb):
         l = mir.op_local(o)
         rl = p.reach_locals(l) if l is not None else set()
         for cont, gacc, greach in guards:
-            if cont in dom[at_block] and (gacc == acc or (greach & rl and _same_source(f, greach, rl))):
+            if cont in dom[at_block] and gacc == acc:
                 return True
         return False
     n = 0
